@@ -409,6 +409,8 @@ func genPayload(r *kit.Rng, c caseCfg, tid string, fieldsOfInterest []string) []
 		e := payEntry{k: name, str: true, s: tid}
 		if r.Chance(3) {
 			e = payEntry{k: name, n: 5} // wrong type: not taken as the trace id
+		} else if r.Chance(3) {
+			e = payEntry{k: name, str: true, s: ""} // empty: consumed, but no trace id
 		}
 		p = append(p, e)
 		if len(c.tids) > 1 && r.Chance(8) {
